@@ -1219,6 +1219,66 @@ def s_musig(ctx, rng):  # noqa: PLR0915
         ctx.count("musig.class", "msg_edit")
         L.append(line(psigs[i], pubnonces[i], pks[i], m=msg + b"\x00"))
     dual(ctx, "musig.pverify", L)
+    s_musig_parity(ctx)
+
+
+def s_musig_parity(ctx):
+    """every (gacc in {1, n-1}) x (tweaked aggregate key Q with even / odd y) combination, for every plain / x-only tweak
+    pattern of length 0..3: sessions are searched (own PRNG stream) until each reachable combination occurs; honest and
+    tampered partial signatures of every signer, 32-byte (delegated) and 38-byte (Python on both settings) messages"""
+    import itertools  # noqa: PLC0415
+    import random  # noqa: PLC0415
+    rng = random.Random(f"musig-parity/{ctx.seed}")
+    L = []
+    for length in range(4):
+        for pattern in itertools.product((False, True), repeat=length):
+            want = {(1, 0), (1, 1)} | ({(N - 1, 0), (N - 1, 1)} if any(pattern) else set())
+            found = {}
+            for _try in range(400):
+                if len(found) == len(want):
+                    break
+                prvs = [rng.randrange(1, N) for _ in range(2)]
+                tweaks = [common.rand_bytes(rng, 32) for _ in pattern]
+                with arm(True):
+                    pks = [sec_point.bytes_from_prv_key_int(q) for q in prvs]
+                combo = None
+                for mlen in (32, 38):  # gacc and Q do not depend on the message: both lengths for every combination found
+                    msg = common.rand_bytes(rng, mlen)
+                    with arm(True):
+                        pairs = [musig2.nonce_gen(q, pk, None, msg, None) for q, pk in zip(prvs, pks)]
+                        agg = musig2.nonce_agg([pn for _sn, pn in pairs])
+                        try:
+                            sctx = musig2.SessionContext(agg, pks, tweaks, list(pattern), msg)
+                            v = musig2.session_values(sctx)
+                        except Exception:  # noqa: BLE001 - a tweak out of range / an aggregate at infinity: draw again
+                            break
+                        combo = (v.gacc, v.Q[1] % 2)
+                        if mlen == 32 and (combo in found or combo not in want):
+                            combo = None
+                            break
+                        psigs = [musig2.sign(bytearray(sn), q, sctx) for (sn, _pn), q in zip(pairs, prvs)]
+                    ttok = ",".join(f"{hx(t)}/{f_b(x)}" for t, x in zip(tweaks, pattern)) or "-"
+                    ptok = ",".join(hx(pk) for pk in pks)
+                    cls = (f"tweaks={''.join('x' if x else 'p' for x in pattern) or 'none'}|gacc={'1' if v.gacc == 1 else 'n-1'}|"
+                           f"Q_{'odd' if combo[1] else 'even'}|msg{mlen}")
+                    for i, ((_sn, pn), pk, ps) in enumerate(zip(pairs, pks, psigs)):
+                        ctx.count("musig.parity", cls)
+                        for tag, pb in (("honest", ps), ("negated", ((N - int.from_bytes(ps, "big")) % N).to_bytes(32, "big")),
+                                        ("plus_one", ((int.from_bytes(ps, "big") + 1) % N).to_bytes(32, "big"))):
+                            L.append(f"dual.musig.pverify {hx(pb)} {hx(pn)} {hx(pk)} {hx(agg)} {ptok} {ttok} {hx(msg)}")
+                            if tag == "honest":
+                                # the honest partial signature must VERIFY on both arms, not merely get the same answer
+                                a, b = both(L[-1])
+                                ctx.oracle("musig.parity.honest_verifies", a == "ok True" and b == "ok True",
+                                           f"{cls} signer {i}: honest partial signature: bindings arm -> {a}, Python arm -> {b}; "
+                                           f"`{L[-1][:300]}`", key="musig.parity.honest_verifies",
+                                           witness={"oracle": "dual", "witness": L[-1]})
+                if combo is not None:
+                    found[combo] = True
+            missing = want - set(found)
+            if missing:
+                raise common.HarnessError(f"musig parity search: pattern {pattern} never reached {sorted(missing)} in 400 draws")
+    dual(ctx, "musig.pverify.parity", L)
 
 
 # -- silent payments
